@@ -428,3 +428,726 @@ Proof.
       + now rewrite scan_none. }
   apply (H (S (length s))). lia.
 Qed.
+
+(* ---------- the model's loop ---------- *)
+Definition repl_text (r : repl) : str := match r with RStr raw => raw | RObj a => base a end.
+(* a plain-str replacement without escape sequences (so that AnsiString(raw) is raw, unformatted) *)
+Definition repl_plain (r : repl) : Prop := match r with RStr raw => no_esc raw = true | RObj _ => True end.
+
+Lemma repl_len_text r : repl_len r = length (repl_text r).
+Proof. destruct r; reflexivity. Qed.
+
+Lemma repl_value_base obj i r nid : repl_plain r -> base (fst (repl_value obj i r nid)) = repl_text r.
+Proof.
+  destruct r as [raw|a]; cbn [repl_plain repl_value repl_text]; intros H; [|reflexivity].
+  rewrite (parse_plain raw nid H). destruct (is_nil _); [reflexivity|].
+  destruct (Parse.fresh _ _) as [news nid']. cbn [fst]. now rewrite ApplyProofs.apply_fmt_base.
+Qed.
+
+(* concatenation can only fail with IndexError (and does not fail at all on well-formed operands) *)
+Lemma retarget_err : forall pairs rems fnd rp e, retarget pairs rems fnd rp = Err e -> e = IndexError.
+Proof.
+  induction pairs as [|[fi ai] pairs IH]; intros rems fnd rp e H; [discriminate|]. cbn [retarget] in H.
+  destruct (nth_error rp fi); [|congruence]. destruct (_ && _); [eauto|congruence].
+Qed.
+Lemma iadd_loop_err shift seam : forall inc t fnd rp e, iadd_loop inc shift seam t fnd rp = Err e -> e = IndexError.
+Proof.
+  induction inc as [|[k0 ip] rest IH]; intros t fnd rp e H; [discriminate|]. cbn [iadd_loop] in H.
+  destruct (tget (k0 + shift) t) as [mine|].
+  - destruct (_ && _); eauto.
+  - destruct (retarget _ _ _ _) as [[[rems f'] r']|e'] eqn:E; [eauto|].
+    inversion H; subst. eapply retarget_err; eauto.
+Qed.
+Lemma iadd_err a b e : iadd a b = Err e -> e = IndexError.
+Proof.
+  unfold iadd. destruct (iadd_loop _ _ _ _ _ _) as [t|e'] eqn:E; cbn [bind]; [discriminate|].
+  intros H. inversion H; subst. eapply iadd_loop_err; eauto.
+Qed.
+Lemma iadd_text a b c : iadd a b = OK c -> base c = base a ++ base b.
+Proof.
+  unfold iadd. destruct (iadd_loop _ _ _ _ _ _) as [t|e]; cbn [bind]; [|discriminate].
+  intros H. inversion H. reflexivity.
+Qed.
+
+Lemma slice_prefix_base obj i : i <= length (base obj) ->
+  base (getitem_slice obj None (Some (Z.of_nat i))) = firstn i (base obj).
+Proof.
+  intros Hi. rewrite api_text. rewrite StrOpsProofs.slice_idx_nat.
+  change (slice_idx (length (base obj)) None 0) with 0. unfold str_slice. cbn [skipn].
+  f_equal. lia.
+Qed.
+Lemma slice_suffix_base obj j : j <= length (base obj) ->
+  base (getitem_slice obj (Some (Z.of_nat j)) None) = skipn j (base obj).
+Proof.
+  intros Hj. rewrite api_text. rewrite StrOpsProofs.slice_idx_nat.
+  change (slice_idx (length (base obj)) None (length (base obj))) with (length (base obj)).
+  unfold str_slice. replace (Nat.min j (length (base obj))) with j by lia.
+  apply firstn_all2. rewrite skipn_length. lia.
+Qed.
+
+Lemma find_from_app (D b old : str) : find_from (D ++ b) old (length D) = find_at b old (length D).
+Proof.
+  unfold find_from. rewrite app_length.
+  replace (length D + length b <? length D) with false by (symmetry; apply Nat.ltb_ge; lia).
+  now rewrite StrOpsProofs.skipn_len_app.
+Qed.
+
+Definition dec_count (count : Z) : Z := if (0 <? count)%Z then (count - 1)%Z else count.
+
+Lemma replace_loop_S f obj old r count idx nid :
+  replace_loop (S f) obj old r count idx nid =
+  match idx with
+  | None => OK (obj, nid)
+  | Some i =>
+    if (count =? 0)%Z then OK (obj, nid)
+    else
+      let '(rv, nid) := repl_value obj i r nid in
+      do lft <- add (getitem_slice obj None (Some (Z.of_nat i))) rv;
+      do obj' <- add lft (getitem_slice obj (Some (Z.of_nat (i + length old))) None);
+      replace_loop f obj' old r (dec_count count)
+                   (find_from (base obj') old (i + repl_len r + (if is_nil old then 1 else 0))) nid
+  end.
+Proof. reflexivity. Qed.
+
+(* one iteration, on the text: [done] is finished, [rest] is a suffix of the original *)
+Lemma replace_step_text obj old r done a b i nid rv nid1 lft obj' :
+  repl_plain r ->
+  base obj = done ++ a ++ old ++ b -> i = length done + length a ->
+  repl_value obj i r nid = (rv, nid1) ->
+  add (getitem_slice obj None (Some (Z.of_nat i))) rv = OK lft ->
+  add lft (getitem_slice obj (Some (Z.of_nat (i + length old))) None) = OK obj' ->
+  base lft = done ++ a ++ repl_text r /\ base obj' = (done ++ a ++ repl_text r) ++ b.
+Proof.
+  intros Hp Eb Ei Erv El Eo.
+  assert (Hlen : length (base obj) = length done + length a + length old + length b)
+    by (rewrite Eb, !app_length; lia).
+  apply iadd_text in El. apply iadd_text in Eo.
+  pose proof (repl_value_base obj i r nid Hp) as Hrv. rewrite Erv in Hrv. cbn [fst] in Hrv.
+  rewrite slice_prefix_base in El by lia. rewrite slice_suffix_base in Eo by lia.
+  assert (E1 : firstn i (base obj) = done ++ a).
+  { rewrite Eb, app_assoc. subst i. rewrite <- app_length. apply StrOpsProofs.firstn_len_app. }
+  assert (E2 : skipn (i + length old) (base obj) = b).
+  { rewrite Eb. subst i. rewrite !app_assoc. rewrite <- !app_length. apply StrOpsProofs.skipn_len_app. }
+  rewrite E1, Hrv in El. rewrite E2 in Eo. rewrite <- app_assoc in El. split; [exact El|]. now rewrite Eo, El.
+Qed.
+
+Lemma py_replace_dec b old new count : (count =? 0)%Z = false ->
+  py_replace b old new (dec_count count) = py_replace b old new (count - 1).
+Proof.
+  intros H. apply Z.eqb_neq in H. unfold dec_count. destruct (0 <? count)%Z eqn:E; [reflexivity|].
+  apply Z.ltb_ge in E. apply py_replace_neg; lia.
+Qed.
+
+Lemma replace_loop_text old r : old <> [] -> repl_plain r ->
+  forall fuel obj done rest count nid,
+  base obj = done ++ rest -> length rest < fuel ->
+  match replace_loop fuel obj old r count (find_at rest old (length done)) nid with
+  | OK (o, _) => base o = done ++ py_replace rest old (repl_text r) count
+  | Err e => e = IndexError
+  end.
+Proof.
+  intros Ho Hp. apply nonempty_length in Ho as Hl.
+  induction fuel as [|f IH]; intros obj done rest count nid Eb Hf; [lia|].
+  rewrite replace_loop_S, (py_replace_unfold rest old (repl_text r) count Ho).
+  pose proof (StrOpsProofs.find_at_cut old rest (length done)) as Hc.
+  destruct (find_at rest old (length done)) as [i|], (cut_first old rest) as [[a b]|]; try contradiction.
+  2:{ destruct (count =? 0)%Z; exact Eb. }
+  destruct Hc as [Ei Er]. destruct (count =? 0)%Z eqn:Ec; [exact Eb|].
+  destruct (repl_value obj i r nid) as [rv nid1] eqn:Erv.
+  destruct (add _ rv) as [lft|e] eqn:El; cbn [bind]; [|now apply iadd_err in El].
+  destruct (add lft _) as [obj'|e] eqn:Eo; cbn [bind]; [|now apply iadd_err in Eo].
+  rewrite Er in Eb.
+  destruct (replace_step_text obj old r done a b i nid rv nid1 lft obj' Hp Eb Ei Erv El Eo) as [_ Eo'].
+  replace (is_nil old) with false by (destruct old; [congruence|reflexivity]).
+  rewrite Nat.add_0_r, repl_len_text, Eo'.
+  replace (i + length (repl_text r)) with (length (done ++ a ++ repl_text r)) by (rewrite !app_length; lia).
+  rewrite find_from_app.
+  assert (Hb : length b < f) by (rewrite Er, !app_length in Hf; lia).
+  specialize (IH obj' (done ++ a ++ repl_text r) b (dec_count count) nid1 Eo' Hb).
+  destruct (replace_loop f obj' old r (dec_count count) _ nid1) as [[o n]|e]; [|exact IH].
+  rewrite IH, py_replace_dec by exact Ec. now rewrite <- !app_assoc.
+Qed.
+
+(* B1. the text of the result *)
+Theorem replace_text s old r count nid s' nid' : old <> [] -> repl_plain r ->
+  replace s old r count nid = OK (s', nid') ->
+  base s' = py_replace (base s) old (repl_text r) count.
+Proof.
+  intros Ho Hp E. unfold replace in E. rewrite StrOpsProofs.find_from_0 in E.
+  pose proof (replace_loop_text old r Ho Hp (length (base s) + 2) s [] (base s) count nid eq_refl ltac:(lia)) as H.
+  cbn [length] in H. rewrite E in H. exact H.
+Qed.
+
+(* B2. the fuel is always sufficient: the out-of-fuel answer (ValueError) is never given *)
+Theorem replace_fuel_enough s old r count nid e : old <> [] -> repl_plain r ->
+  replace s old r count nid = Err e -> e = IndexError.
+Proof.
+  intros Ho Hp E. unfold replace in E. rewrite StrOpsProofs.find_from_0 in E.
+  pose proof (replace_loop_text old r Ho Hp (length (base s) + 2) s [] (base s) count nid eq_refl ltac:(lia)) as H.
+  cbn [length] in H. rewrite E in H. exact H.
+Qed.
+
+(* ====================================================================== *)
+(* D. replace that replaces nothing: count = 0, pattern absent             *)
+(*    (the Python returns a copy, never the receiver; at the level of      *)
+(*    values this is equality)                                             *)
+(* ====================================================================== *)
+Theorem replace_count_zero s old r nid : replace s old r 0 nid = OK (s, nid).
+Proof.
+  unfold replace. replace (length (base s) + 2) with (S (length (base s) + 1)) by lia.
+  rewrite replace_loop_S. destruct (find_from (base s) old 0); reflexivity.
+Qed.
+
+Theorem replace_not_found s old r count nid : find_from (base s) old 0 = None ->
+  replace s old r count nid = OK (s, nid).
+Proof.
+  intros H. unfold replace. replace (length (base s) + 2) with (S (length (base s) + 1)) by lia.
+  rewrite replace_loop_S, H. reflexivity.
+Qed.
+
+(* "absent" in the sense of the specification *)
+Theorem replace_absent s old r count nid : (forall i, ~ occurs_at old (base s) i) ->
+  replace s old r count nid = OK (s, nid).
+Proof.
+  intros H. apply replace_not_found. rewrite StrOpsProofs.find_from_0.
+  pose proof (StrOpsProofs.find_at_cut old (base s) 0) as Hc.
+  pose proof (cut_first_spec old (base s)) as Hs.
+  destruct (find_at (base s) old 0) as [i|]; [|reflexivity].
+  destruct (cut_first old (base s)) as [[a b]|]; [|contradiction].
+  destruct Hs as [E _]. exfalso. apply (H (length a)). now exists a, b.
+Qed.
+
+(* and the specification agrees: nothing to replace, nothing changes *)
+Lemma py_replace_zero s old new : py_replace s old new 0 = s.
+Proof. reflexivity. Qed.
+Lemma py_replace_absent s old new m : (forall i, ~ occurs_at old s i) -> py_replace s old new m = s.
+Proof.
+  intros H. unfold py_replace. rewrite replace_fuel_S. destruct (m =? 0)%Z; auto.
+  pose proof (cut_first_spec old s) as Hs. destruct (cut_first old s) as [[a b]|]; auto.
+  destruct Hs as [E _]. exfalso. apply (H (length a)). now exists a, b.
+Qed.
+
+(* ====================================================================== *)
+(* C. replace: the styles of the result                                    *)
+(* ====================================================================== *)
+(* ---------- list helpers ---------- *)
+Lemma firstn_app_len {A} (l1 l2 : list A) : firstn (length l1) (l1 ++ l2) = l1.
+Proof. induction l1; simpl; congruence. Qed.
+Lemma skipn_app_len {A} (l1 l2 : list A) : skipn (length l1) (l1 ++ l2) = l2.
+Proof. induction l1; simpl; auto. Qed.
+Lemma seq_shift_add n : forall st len, seq (n + st) len = map (fun k => n + k) (seq st len).
+Proof.
+  intros st len. revert st. induction len as [|len IH]; intros st; [reflexivity|].
+  cbn [seq map]. f_equal. rewrite <- IH. f_equal. lia.
+Qed.
+Lemma firstn_app_exact {A} n (l1 l2 : list A) : length l1 = n -> firstn n (l1 ++ l2) = l1.
+Proof. intros <-. apply firstn_app_len. Qed.
+Lemma skipn_app_exact {A} n (l1 l2 : list A) : length l1 = n -> skipn n (l1 ++ l2) = l2.
+Proof. intros <-. apply skipn_app_len. Qed.
+Lemma firstn_map_seq {B} (g : nat -> B) n i : i <= n -> firstn i (map g (seq 0 n)) = map g (seq 0 i).
+Proof.
+  intros H. replace n with (i + (n - i)) by lia. rewrite seq_app, map_app.
+  apply firstn_app_exact. now rewrite map_length, seq_length.
+Qed.
+Lemma skipn_map_seq {B} (g : nat -> B) n i : i <= n -> skipn i (map g (seq 0 n)) = map g (seq i (n - i)).
+Proof.
+  intros H. replace n with (i + (n - i)) at 1 by lia. rewrite seq_app, map_app.
+  apply skipn_app_exact. now rewrite map_length, seq_length.
+Qed.
+
+Lemma nth_map_seq {B} (g : nat -> B) n k d : k < n -> nth k (map g (seq 0 n)) d = g k.
+Proof.
+  intros H. rewrite (nth_indep _ d (g 0)) by (now rewrite map_length, seq_length).
+  rewrite map_nth, seq_nth by exact H. reflexivity.
+Qed.
+
+Lemma styles_length s : length (styles s) = length (base s).
+Proof. unfold styles. now rewrite map_length, seq_length. Qed.
+
+Lemma styles_nth s k : k < length (base s) -> nth k (styles s) [] = map stxt (active_at (tbl s) k).
+Proof.
+  intros H. unfold styles. exact (nth_map_seq (fun k => map stxt (active_at (tbl s) k)) _ k [] H).
+Qed.
+
+Lemma skipn_map_seq' {B} (g : nat -> B) n i : i <= n ->
+  skipn i (map g (seq 0 n)) = map (fun k => g (i + k)) (seq 0 (n - i)).
+Proof.
+  intros H. rewrite skipn_map_seq by exact H.
+  replace (seq i (n - i)) with (seq (i + 0) (n - i)) by (f_equal; lia).
+  now rewrite seq_shift_add, map_map.
+Qed.
+
+(* ---------- styles of slices ---------- *)
+Lemma styles_slice s i j : ssorted (tbl s) -> i <= j <= length (base s) ->
+  styles (getitem_slice s (Some (Z.of_nat i)) (Some (Z.of_nat j))) = firstn (j - i) (skipn i (styles s)).
+Proof.
+  intros Hs Hij. unfold styles at 1. rewrite api_text, !StrOpsProofs.slice_idx_nat.
+  replace (Nat.min i (length (base s))) with i by lia. replace (Nat.min j (length (base s))) with j by lia.
+  rewrite str_slice_length by lia.
+  unfold styles. rewrite skipn_map_seq' by lia. rewrite firstn_map_seq by lia.
+  apply map_ext_in. intros k Hk. apply in_seq in Hk. f_equal.
+  unfold getitem_slice, slice_core. rewrite !StrOpsProofs.slice_idx_nat.
+  replace (Nat.min i (length (base s))) with i by lia. replace (Nat.min j (length (base s))) with j by lia.
+  replace (j <=? i) with false by (symmetry; apply Nat.leb_gt; lia). cbn [tbl].
+  apply slice_active; auto; lia.
+Qed.
+
+Lemma getitem_none_l s b : getitem_slice s None b = getitem_slice s (Some (Z.of_nat 0)) b.
+Proof. unfold getitem_slice. now rewrite StrOpsProofs.slice_idx_nat. Qed.
+Lemma getitem_none_r s a :
+  getitem_slice s a None = getitem_slice s a (Some (Z.of_nat (length (base s)))).
+Proof. unfold getitem_slice. now rewrite StrOpsProofs.slice_idx_nat, Nat.min_id. Qed.
+
+Lemma styles_prefix s i : ssorted (tbl s) -> i <= length (base s) ->
+  styles (getitem_slice s None (Some (Z.of_nat i))) = firstn i (styles s).
+Proof. intros Hs Hi. rewrite getitem_none_l, styles_slice by (auto; lia). cbn [skipn]. f_equal. lia. Qed.
+
+Lemma styles_suffix s j : ssorted (tbl s) -> j <= length (base s) ->
+  styles (getitem_slice s (Some (Z.of_nat j)) None) = skipn j (styles s).
+Proof.
+  intros Hs Hj. rewrite getitem_none_r, styles_slice by (auto; lia).
+  apply firstn_all2. rewrite skipn_length, styles_length. lia.
+Qed.
+
+(* ---------- the markers of a slice are markers of the source ---------- *)
+Lemma slice_tbl_occurs t st en x : ssorted t -> occurs x (slice_tbl t st en) -> occurs x t.
+Proof.
+  intros Hs (kp & Hin & Hx). unfold slice_tbl in Hin.
+  assert (Hact : forall k y, In y (active_at t k) -> occurs y t).
+  { intros k y Hy. unfold active_at in Hy. apply active_upto_occurs in Hy as [[]|Hy]. exact Hy. }
+  apply in_app_or in Hin as [Hin|Hin]; [|apply in_app_or in Hin as [Hin|Hin]].
+  - destruct (active_at t st) eqn:Ea; [destruct Hin|]. destruct Hin as [<-|[]]. cbn [snd padd prem] in Hx.
+    destruct Hx as [Hx|[]]. apply (Hact st). now rewrite Ea.
+  - unfold shift_down, between in Hin. apply in_map_iff in Hin as (kp0 & <- & Hin0).
+    apply filter_In in Hin0 as [Hin0 _]. cbn [snd] in Hx. now exists kp0.
+  - destruct (_ ++ _) eqn:Ec in Hin; [destruct Hin|]. destruct Hin as [<-|[]]. cbn [snd padd prem] in Hx.
+    destruct Hx as [[]|Hx]. rewrite <- Ec in Hx. apply in_app_or in Hx as [Hx|Hx].
+    + destruct (tget en t) as [p|] eqn:G; [|destruct Hx]. exists (en, p). split; [now apply tget_In|now right].
+    + apply filter_In in Hx as [Hx _]. now apply (Hact (en - 1)).
+Qed.
+
+Lemma getitem_slice_occurs s a b x : ssorted (tbl s) -> occurs x (tbl (getitem_slice s a b)) -> occurs x (tbl s).
+Proof.
+  intros Hs. unfold getitem_slice, slice_core. destruct (_ <=? _); cbn [tbl].
+  - intros (kp & [] & _).
+  - now apply slice_tbl_occurs.
+Qed.
+
+(* ---------- styles of a concatenation ---------- *)
+Lemma styles_iadd a b c : WF a -> WF b -> coherent (tbl a) -> iadd a b = OK c ->
+  styles c = styles a ++ styles b.
+Proof.
+  intros Wa Wb Ca E. unfold styles. rewrite (iadd_text a b c E), app_length, seq_app, map_app. f_equal.
+  - apply map_ext_in. intros k Hk. apply in_seq in Hk. f_equal. apply (iadd_left a b Wa Wb c E). lia.
+  - cbn [Nat.add]. replace (seq (length (base a)) (length (base b))) with (seq (length (base a) + 0) (length (base b)))
+      by (f_equal; lia).
+    rewrite seq_shift_add, map_map. apply map_ext. intros k. apply (iadd_right a b Wa Wb c Ca E).
+Qed.
+
+(* ---------- putting a value in the place of obj[i : i+n] ---------- *)
+Definition sub_occurs (t' t : fmts) : Prop := forall x, occurs x t' -> occurs x t.
+
+Lemma splice obj rv i n :
+  WF obj -> WF rv -> coherent (tbl obj ++ tbl rv) -> i + n <= length (base obj) ->
+  exists lft obj',
+    add (getitem_slice obj None (Some (Z.of_nat i))) rv = OK lft
+    /\ add lft (getitem_slice obj (Some (Z.of_nat (i + n))) None) = OK obj'
+    /\ WF obj'
+    /\ base obj' = firstn i (base obj) ++ base rv ++ skipn (i + n) (base obj)
+    /\ styles obj' = firstn i (styles obj) ++ styles rv ++ skipn (i + n) (styles obj)
+    /\ sub_occurs (tbl obj') (tbl obj ++ tbl rv).
+Proof.
+  intros Wo Wr Co Hin. pose proof Wo as (So & _).
+  set (A := getitem_slice obj None (Some (Z.of_nat i))).
+  set (B := getitem_slice obj (Some (Z.of_nat (i + n))) None).
+  assert (WA : WF A) by now apply getitem_slice_WF.
+  assert (WB : WF B) by now apply getitem_slice_WF.
+  assert (OA : sub_occurs (tbl A) (tbl obj ++ tbl rv)).
+  { intros x Hx. apply occurs_app. left. eapply getitem_slice_occurs; eauto. }
+  assert (OB : sub_occurs (tbl B) (tbl obj ++ tbl rv)).
+  { intros x Hx. apply occurs_app. left. eapply getitem_slice_occurs; eauto. }
+  assert (OR : sub_occurs (tbl rv) (tbl obj ++ tbl rv)) by (intros x Hx; apply occurs_app; now right).
+  assert (CA : coherent (tbl A)) by (eapply coherent_sub; eauto).
+  unfold add. destruct (iadd_ok A rv WA Wr) as [lft El]. exists lft.
+  assert (OL : sub_occurs (tbl lft) (tbl obj ++ tbl rv)).
+  { intros x Hx. apply (iadd_occurs A rv lft El) in Hx as [Hx|Hx]; auto. }
+  assert (WL : WF lft) by (eapply (iadd_WF A rv); eauto).
+  assert (CL : coherent (tbl lft)) by (eapply coherent_sub; eauto).
+  destruct (iadd_ok lft B WL WB) as [obj' Eo]. exists obj'.
+  split; [exact El|]. split; [exact Eo|]. split; [eapply (iadd_WF lft B); eauto|].
+  split; [|split].
+  - rewrite (iadd_text _ _ _ Eo), (iadd_text _ _ _ El). unfold A, B.
+    rewrite slice_prefix_base, slice_suffix_base by lia. now rewrite <- app_assoc.
+  - rewrite (styles_iadd lft B obj' WL WB CL Eo), (styles_iadd A rv lft WA Wr CA El). unfold A, B.
+    rewrite styles_prefix, styles_suffix by (auto; lia). now rewrite <- app_assoc.
+  - intros x Hx. apply (iadd_occurs lft B obj' Eo) in Hx as [Hx|Hx]; auto.
+Qed.
+
+(* ---------- the value put in place of a match ---------- *)
+Lemma fresh_props texts nid :
+  let news := fst (Parse.fresh texts nid) in
+  snd (Parse.fresh texts nid) = nid + length texts
+  /\ map stxt news = texts /\ ids news = seq nid (length texts) /\ NoDup (ids news)
+  /\ (forall x, In x news -> nid <= sid x < nid + length texts).
+Proof.
+  unfold Parse.fresh. cbn [fst snd].
+  set (news := map (fun it : nat * str => mkS (nid + fst it) (snd it)) (combine (seq 0 (length texts)) texts)).
+  assert (Hl : length (seq 0 (length texts)) = length texts) by apply seq_length.
+  assert (E1 : map stxt news = texts).
+  { unfold news. rewrite map_map. cbn [stxt]. now apply map_snd_combine. }
+  assert (E2 : ids news = seq nid (length texts)).
+  { unfold news, ids. rewrite map_map. cbn [sid].
+    rewrite <- (map_map fst (fun k => nid + k)). rewrite map_fst_combine by exact Hl.
+    rewrite <- (seq_shift_add nid 0). f_equal. lia. }
+  split; [reflexivity|]. split; [exact E1|]. split; [exact E2|]. split.
+  - rewrite E2. apply seq_NoDup.
+  - intros x Hx. assert (H : In (sid x) (ids news)) by (unfold ids; now apply in_map).
+    rewrite E2 in H. apply in_seq in H. lia.
+Qed.
+
+Lemma slice_idx_zero len d : slice_idx len (Some 0%Z) d = 0.
+Proof. change 0%Z with (Z.of_nat 0). now rewrite StrOpsProofs.slice_idx_nat. Qed.
+
+(* AnsiString(raw, settings) for text without escapes: the settings span the whole text *)
+Lemma styled_plain c raw x news :
+  apply_fmt (mkA (c :: raw) []) (x :: news) (Some 0%Z) None true
+  = mkA (c :: raw) [(0, mkP (x :: news) []); (length (c :: raw), mkP [] (x :: news))].
+Proof.
+  unfold apply_fmt. cbn [base tbl]. rewrite slice_idx_zero.
+  change (slice_idx (length (c :: raw)) None (length (c :: raw))) with (length (c :: raw)).
+  cbn [length range_empty Nat.leb orb is_nil]. generalize (length raw) as n. intros n.
+  unfold apply_core. cbn [base tbl].
+  assert (E1 : tensure 0 [] = [(0, empty_point)]) by reflexivity. rewrite E1.
+  assert (E2 : tget_or_empty 0 [(0, empty_point)] = empty_point) by reflexivity. rewrite E2.
+  cbn [padd prem empty_point app].
+  assert (E3 : forall p, tput 0 p [(0, empty_point)] = [(0, p)]) by reflexivity. rewrite E3.
+  assert (E4 : forall p, tensure (S n) [(0, p)] = [(0, p); (S n, empty_point)]) by reflexivity. rewrite E4.
+  assert (E5 : forall p, tget_or_empty (S n) [(0, p); (S n, empty_point)] = empty_point).
+  { intros p. unfold tget_or_empty. cbn [tget Nat.eqb Nat.ltb Nat.leb]. now rewrite Nat.eqb_refl. }
+  rewrite E5. cbn [padd prem empty_point app].
+  assert (E6 : forall p q, tput (S n) q [(0, p); (S n, empty_point)] = [(0, p); (S n, q)]).
+  { intros p q. cbn [tput Nat.eqb Nat.ltb Nat.leb]. now rewrite Nat.eqb_refl. }
+  rewrite E6. reflexivity.
+Qed.
+
+Lemma span_active news len k : 0 < len ->
+  active_at [(0, mkP news []); (len, mkP [] news)] k = if k <? len then news else [].
+Proof.
+  intros H. unfold active_at. cbn [active_upto Nat.leb]. unfold step at 2. cbn [fold_left prem padd app].
+  destruct (k <? len) eqn:E.
+  - apply Nat.ltb_lt in E. now replace (len <=? k) with false by (symmetry; apply Nat.leb_gt; lia).
+  - apply Nat.ltb_ge in E. replace (len <=? k) with true by (symmetry; apply Nat.leb_le; lia).
+    unfold step. cbn [prem padd]. rewrite app_nil_r. apply rm_self.
+Qed.
+
+Lemma span_WF b news : b <> [] -> NoDup (ids news) ->
+  WF (mkA b [(0, mkP news []); (length b, mkP [] news)]).
+Proof.
+  intros Hb Hn. apply nonempty_length in Hb. unfold WF. cbn [base tbl]. split; [|split; [|split; [|split]]].
+  - constructor; [|constructor; [intros kp []|constructor]]. intros kp [<-|[]]. exact Hb.
+  - intros kp [<-|[<-|[]]]; cbn [fst]; lia.
+  - unfold strict_ok. rewrite !ApplyProofs.sok_cons. cbn [prem padd]. unfold step. cbn [fold_left prem padd app].
+    rewrite !srok_self. reflexivity.
+  - intros k. rewrite span_active by exact Hb. destruct (k <? length b); [exact Hn|constructor].
+  - unfold final_active. cbn [fold_left snd]. unfold step. cbn [fold_left prem padd app].
+    rewrite app_nil_r. apply rm_self.
+Qed.
+
+Lemma map_const_seq {B} (x : B) n : forall st, map (fun _ : nat => x) (seq st n) = repeat x n.
+Proof. induction n as [|n IH]; intros st; [reflexivity|]. cbn [seq map repeat]. now rewrite IH. Qed.
+
+Lemma span_styles b news : b <> [] ->
+  styles (mkA b [(0, mkP news []); (length b, mkP [] news)]) = repeat (map stxt news) (length b).
+Proof.
+  intros Hb. apply nonempty_length in Hb. unfold styles. cbn [base tbl].
+  transitivity (map (fun _ : nat => map stxt news) (seq 0 (length b))).
+  - apply map_ext_in. intros k Hk. apply in_seq in Hk. rewrite span_active by exact Hb.
+    now replace (k <? length b) with true by (symmetry; apply Nat.ltb_lt; lia).
+  - apply map_const_seq.
+Qed.
+
+Lemma plain_styles b : styles (mkA b []) = repeat [] (length b).
+Proof.
+  unfold styles. cbn [base tbl]. apply (map_const_seq (@nil str)).
+Qed.
+
+(* ---------- the specification of the styles ---------- *)
+(* styles of the replacement, given the styles [first] of the first character of the match *)
+Definition repl_styles (r : repl) (first : list str) : list (list str) :=
+  match r with
+  | RStr raw => repeat first (length raw)
+  | RObj a => styles a
+  end.
+
+(* text [s] and its per-character styles [st] are walked together: unmatched stretches keep their
+   styles, every match gets the styles of the replacement *)
+Fixpoint replace_styles_fuel (fuel : nat) (old : str) (r : repl) (count : Z) (s : str) (st : list (list str))
+  : list (list str) :=
+  match fuel with
+  | O => st
+  | S f => if (count =? 0)%Z then st
+           else match cut_first old s with
+                | None => st
+                | Some (a, b) =>
+                  firstn (length a) st
+                  ++ repl_styles r (nth (length a) st [])
+                  ++ replace_styles_fuel f old r (count - 1) b (skipn (length a + length old) st)
+                end
+  end.
+Definition replace_styles (s : str) (st : list (list str)) (old : str) (r : repl) (count : Z) : list (list str) :=
+  replace_styles_fuel (S (length s)) old r count s st.
+
+Lemma replace_styles_fuel_S f old r m s st :
+  replace_styles_fuel (S f) old r m s st =
+  if (m =? 0)%Z then st
+  else match cut_first old s with
+       | None => st
+       | Some (a, b) =>
+         firstn (length a) st ++ repl_styles r (nth (length a) st [])
+         ++ replace_styles_fuel f old r (m - 1) b (skipn (length a + length old) st)
+       end.
+Proof. reflexivity. Qed.
+
+Lemma replace_styles_fuel_irrel old r : old <> [] -> forall f1 f2 s m st, length s < f1 -> length s < f2 ->
+  replace_styles_fuel f1 old r m s st = replace_styles_fuel f2 old r m s st.
+Proof.
+  intros Ho. apply nonempty_length in Ho.
+  induction f1 as [|f1 IH]; intros [|f2] s m st H1 H2; try lia.
+  rewrite !replace_styles_fuel_S. destruct (m =? 0)%Z; auto.
+  destruct (cut_first old s) as [[a b]|] eqn:E; auto.
+  apply cut_first_parts in E. do 2 f_equal.
+  assert (length s = length a + length old + length b) by (rewrite E, !app_length; lia).
+  apply IH; lia.
+Qed.
+
+Lemma replace_styles_unfold s st old r m : old <> [] ->
+  replace_styles s st old r m =
+  if (m =? 0)%Z then st
+  else match cut_first old s with
+       | None => st
+       | Some (a, b) =>
+         firstn (length a) st ++ repl_styles r (nth (length a) st [])
+         ++ replace_styles b (skipn (length a + length old) st) old r (m - 1)
+       end.
+Proof.
+  intros Ho. unfold replace_styles. rewrite replace_styles_fuel_S. destruct (m =? 0)%Z; auto.
+  destruct (cut_first old s) as [[a b]|] eqn:E; auto.
+  apply cut_first_parts in E. do 2 f_equal. apply nonempty_length in Ho as Hl.
+  assert (length s = length a + length old + length b) by (rewrite E, !app_length; lia).
+  apply replace_styles_fuel_irrel; auto; lia.
+Qed.
+
+Lemma replace_styles_fuel_neg old r : forall f s st m1 m2, (m1 < 0)%Z -> (m2 < 0)%Z ->
+  replace_styles_fuel f old r m1 s st = replace_styles_fuel f old r m2 s st.
+Proof.
+  induction f as [|f IH]; intros s st m1 m2 H1 H2; [reflexivity|]. rewrite !replace_styles_fuel_S.
+  replace (m1 =? 0)%Z with false by (symmetry; apply Z.eqb_neq; lia).
+  replace (m2 =? 0)%Z with false by (symmetry; apply Z.eqb_neq; lia).
+  destruct (cut_first old s) as [[a b]|]; auto. do 2 f_equal. apply IH; lia.
+Qed.
+
+Lemma replace_styles_dec b st old r count : (count =? 0)%Z = false ->
+  replace_styles b st old r (dec_count count) = replace_styles b st old r (count - 1).
+Proof.
+  intros H. apply Z.eqb_neq in H. unfold dec_count. destruct (0 <? count)%Z eqn:E; [reflexivity|].
+  apply Z.ltb_ge in E. apply replace_styles_fuel_neg; lia.
+Qed.
+
+Lemma repl_styles_length r x : length (repl_styles r x) = repl_len r.
+Proof. destruct r; cbn [repl_styles repl_len]; [apply repeat_length|apply styles_length]. Qed.
+
+(* ---------- hypotheses ---------- *)
+Definition ids_below (n : nat) (t : fmts) : Prop := forall x, occurs x t -> sid x < n.
+
+(* the replacement: a plain str without escapes, or a well-formed object *)
+Definition repl_ok (r : repl) : Prop := match r with RStr raw => no_esc raw = true | RObj a => WF a end.
+
+(* the receiver: well formed; an identity has one text (across receiver and replacement object);
+   for a str replacement the identities handed out from nid on are new *)
+Definition repl_inv (r : repl) (obj : astr) (nid : nat) : Prop :=
+  WF obj /\ match r with
+            | RObj a => coherent (tbl obj ++ tbl a)
+            | RStr _ => coherent (tbl obj) /\ ids_below nid (tbl obj)
+            end.
+
+Lemma repl_ok_plain r : repl_ok r -> repl_plain r.
+Proof. destruct r; cbn; auto. Qed.
+
+Lemma rstr_coherent obj rv news nid n :
+  coherent (tbl obj) -> ids_below nid (tbl obj) -> NoDup (ids news) ->
+  (forall x, In x news -> nid <= sid x < nid + n) -> (forall y, occurs y (tbl rv) -> In y news) ->
+  coherent (tbl obj ++ tbl rv) /\ ids_below (nid + n) (tbl obj ++ tbl rv).
+Proof.
+  intros Co Ib Nd Hr Ho. split.
+  - intros x y Ox Oy E. apply occurs_app in Ox, Oy. destruct Ox as [Ox|Ox], Oy as [Oy|Oy].
+    + now apply Co.
+    + apply Ib in Ox. apply Ho, Hr in Oy. lia.
+    + apply Ib in Oy. apply Ho, Hr in Ox. lia.
+    + apply Ho in Ox, Oy. now rewrite (nodup_ids_inj news x y Nd Ox Oy E).
+  - intros x Ox. apply occurs_app in Ox as [Ox|Ox].
+    + apply Ib in Ox. lia.
+    + apply Ho, Hr in Ox. lia.
+Qed.
+
+Lemma no_occurs_nil x : ~ occurs x [].
+Proof. intros (kp & [] & _). Qed.
+
+Lemma repl_value_props obj i r nid rv nid1 :
+  repl_ok r -> repl_inv r obj nid -> i < length (base obj) ->
+  repl_value obj i r nid = (rv, nid1) ->
+  WF rv /\ base rv = repl_text r /\ styles rv = repl_styles r (nth i (styles obj) [])
+  /\ coherent (tbl obj ++ tbl rv)
+  /\ (forall obj', WF obj' -> sub_occurs (tbl obj') (tbl obj ++ tbl rv) -> repl_inv r obj' nid1).
+Proof.
+  intros Hok [Wo Hinv] Hi E. rewrite styles_nth by exact Hi.
+  destruct r as [raw|a]; cbn [repl_ok repl_text repl_styles] in *.
+  - destruct Hinv as [Co Ib].
+    (* all cases end the same way *)
+    assert (Fin : forall news n, NoDup (ids news) -> (forall x, In x news -> nid <= sid x < nid + n) ->
+              (forall y, occurs y (tbl rv) -> In y news) -> nid1 = nid + n ->
+              coherent (tbl obj ++ tbl rv)
+              /\ (forall obj', WF obj' -> sub_occurs (tbl obj') (tbl obj ++ tbl rv) -> repl_inv (RStr raw) obj' nid1)).
+    { intros news n Nd Hr Ho ->. destruct (rstr_coherent obj rv news nid n Co Ib Nd Hr Ho) as [C1 I1].
+      split; [exact C1|]. intros obj' W' Hsub. split; [exact W'|]. split.
+      - eapply coherent_sub; eauto.
+      - intros x Hx. apply I1. now apply Hsub. }
+    cbn [repl_value] in E. rewrite (parse_plain raw nid Hok) in E.
+    unfold settings_at_nat in E. replace (i <? length (base obj)) with true in E by (symmetry; now apply Nat.ltb_lt).
+    set (texts := map stxt (active_at (tbl obj) i)) in *.
+    destruct (is_nil texts) eqn:En.
+    + inversion E; subst rv nid1. apply is_nil_true in En. rewrite En.
+      split; [apply WF_plain|]. split; [reflexivity|]. split; [apply plain_styles|].
+      apply (Fin [] 0); [constructor|intros x []| |lia]. cbn [tbl]. intros y Hy. now apply no_occurs_nil in Hy.
+    + pose proof (fresh_props texts nid) as (P1 & P2 & P3 & P4 & P5).
+      destruct (Parse.fresh texts nid) as [news nid'] eqn:Ef. cbn [fst snd] in *. subst nid'.
+      inversion E; subst nid1. clear E. subst rv.
+      destruct raw as [|c raw'].
+      * change (apply_fmt (mkA [] []) news (Some 0%Z) None true) with (mkA (@nil char) []) in *.
+        split; [apply WF_plain|]. split; [reflexivity|]. split; [reflexivity|].
+        apply (Fin news (length texts)); auto. cbn [tbl]. intros y Hy. now apply no_occurs_nil in Hy.
+      * destruct news as [|x news']; [destruct texts; [discriminate En|discriminate P2]|].
+        rewrite styled_plain in *.
+        split; [apply span_WF; [discriminate|exact P4]|]. split; [reflexivity|].
+        split; [rewrite span_styles by discriminate; now rewrite P2|].
+        apply (Fin (x :: news') (length texts)); auto. cbn [tbl].
+        intros y (kp & [<-|[<-|[]]] & [Hy|Hy]); cbn [snd padd prem] in Hy; auto; destruct Hy.
+  - cbn [repl_value] in E. inversion E; subst rv nid1.
+    split; [exact Hok|]. split; [reflexivity|]. split; [reflexivity|]. split; [exact Hinv|].
+    intros obj' W' Hsub. split; [exact W'|]. eapply coherent_sub; [|exact Hinv].
+    intros x Hx. apply occurs_app in Hx as [Hx|Hx]; [now apply Hsub|]. apply occurs_app. now right.
+Qed.
+
+Lemma firstn_add {A} : forall n m (l : list A), firstn (n + m) l = firstn n l ++ firstn m (skipn n l).
+Proof.
+  induction n as [|n IH]; intros m l; [reflexivity|]. destruct l as [|x l]; cbn [Nat.add firstn skipn app].
+  - now rewrite firstn_nil.
+  - now rewrite IH.
+Qed.
+Lemma nth_skipn {A} : forall n m (l : list A) d, nth m (skipn n l) d = nth (n + m) l d.
+Proof.
+  induction n as [|n IH]; intros m l d; [reflexivity|]. destruct l as [|x l]; cbn [Nat.add skipn nth].
+  - now destruct m.
+  - apply IH.
+Qed.
+
+(* the loop: [done] is finished; [rest] is a suffix of the original text whose characters still report
+   what they reported in the original (the tail of the current styles) *)
+Lemma replace_loop_styles old r : old <> [] -> repl_ok r ->
+  forall fuel obj done rest count nid,
+  repl_inv r obj nid -> base obj = done ++ rest -> length rest < fuel ->
+  exists o n,
+    replace_loop fuel obj old r count (find_at rest old (length done)) nid = OK (o, n)
+    /\ repl_inv r o n
+    /\ styles o = firstn (length done) (styles obj)
+                  ++ replace_styles rest (skipn (length done) (styles obj)) old r count.
+Proof.
+  intros Ho Hok. apply nonempty_length in Ho as Hl. pose proof (repl_ok_plain r Hok) as Hp.
+  induction fuel as [|f IH]; intros obj done rest count nid Inv Eb Hf; [lia|].
+  rewrite replace_loop_S, (replace_styles_unfold rest _ old r count Ho).
+  pose proof (StrOpsProofs.find_at_cut old rest (length done)) as Hc.
+  destruct (find_at rest old (length done)) as [i|], (cut_first old rest) as [[a b]|]; try contradiction.
+  2:{ exists obj, nid. split; [reflexivity|]. split; [exact Inv|]. destruct (count =? 0)%Z; now rewrite firstn_skipn. }
+  destruct Hc as [Ei Er]. destruct (count =? 0)%Z eqn:Ec.
+  { exists obj, nid. split; [reflexivity|]. split; [exact Inv|]. now rewrite firstn_skipn. }
+  rewrite Er in Eb.
+  assert (Hlen : length (base obj) = length done + length a + length old + length b)
+    by (rewrite Eb, !app_length; lia).
+  destruct (repl_value obj i r nid) as [rv nid1] eqn:Erv.
+  destruct (repl_value_props obj i r nid rv nid1 Hok Inv ltac:(lia) Erv) as (Wr & Br & Sr & Cr & Next).
+  destruct Inv as [Wo _].
+  destruct (splice obj rv i (length old) Wo Wr Cr ltac:(lia)) as (lft & obj' & El & Eo & W' & _ & S' & Sub).
+  rewrite El. cbn [bind]. rewrite Eo. cbn [bind].
+  destruct (replace_step_text obj old r done a b i nid rv nid1 lft obj' Hp Eb Ei Erv El Eo) as [_ Eo'].
+  replace (is_nil old) with false by (destruct old; [congruence|reflexivity]).
+  rewrite Nat.add_0_r, repl_len_text, Eo'.
+  replace (i + length (repl_text r)) with (length (done ++ a ++ repl_text r)) by (rewrite !app_length; lia).
+  rewrite find_from_app.
+  assert (Hb : length b < f) by (rewrite Er, !app_length in Hf; lia).
+  destruct (IH obj' (done ++ a ++ repl_text r) b (dec_count count) nid1 (Next obj' W' Sub) Eo' Hb)
+    as (o & n & E1 & Inv1 & S1).
+  exists o, n. split; [exact E1|]. split; [exact Inv1|].
+  rewrite S1, replace_styles_dec by exact Ec. rewrite S'.
+  set (ST := styles obj) in *. set (RS := styles rv) in *.
+  assert (LST : length ST = length (base obj)) by apply styles_length.
+  assert (LRS : length RS = length (repl_text r)) by (rewrite Sr, repl_styles_length; apply repl_len_text).
+  assert (L1 : length (firstn i ST ++ RS) = length (done ++ a ++ repl_text r)).
+  { rewrite !app_length, firstn_length, LRS. lia. }
+  rewrite (app_assoc (firstn i ST) RS (skipn (i + length old) ST)).
+  rewrite (firstn_app_exact _ _ _ L1), (skipn_app_exact _ _ _ L1).
+  rewrite Ei, firstn_add, <- !app_assoc. do 2 f_equal.
+  rewrite nth_skipn. rewrite Sr, <- Ei. f_equal.
+  rewrite StrOpsProofs.skipn_add. do 2 f_equal. lia.
+Qed.
+
+(* C. every character of the result reports: outside the matches what the corresponding original
+   character reported; inside a match the styles of the replacement (its own for an object, those of
+   the first character of the match for a plain str).  The call cannot fail. *)
+Theorem replace_spec s old r count nid : old <> [] -> repl_ok r -> repl_inv r s nid ->
+  exists s' nid',
+    replace s old r count nid = OK (s', nid')
+    /\ base s' = py_replace (base s) old (repl_text r) count
+    /\ styles s' = replace_styles (base s) (styles s) old r count
+    /\ repl_inv r s' nid'.
+Proof.
+  intros Ho Hok Inv.
+  destruct (replace_loop_styles old r Ho Hok (length (base s) + 2) s [] (base s) count nid Inv eq_refl ltac:(lia))
+    as (o & n & E & Inv' & S').
+  cbn [length firstn skipn app] in *. exists o, n.
+  assert (E' : replace s old r count nid = OK (o, n)) by (unfold replace; now rewrite StrOpsProofs.find_from_0).
+  split; [exact E'|]. split; [|split; [exact S'|exact Inv']].
+  eapply replace_text; eauto. now apply repl_ok_plain.
+Qed.
+
+(* the two cases spelled out *)
+Corollary replace_str_spec s old raw count nid :
+  old <> [] -> no_esc raw = true -> WF s -> coherent (tbl s) -> ids_below nid (tbl s) ->
+  exists s' nid',
+    replace s old (RStr raw) count nid = OK (s', nid')
+    /\ base s' = py_replace (base s) old raw count
+    /\ styles s' = replace_styles (base s) (styles s) old (RStr raw) count
+    /\ WF s' /\ coherent (tbl s') /\ ids_below nid' (tbl s').
+Proof.
+  intros Ho Hn W C I. destruct (replace_spec s old (RStr raw) count nid Ho Hn (conj W (conj C I)))
+    as (s' & nid' & E & B & S' & W' & C' & I').
+  exists s', nid'. auto 10.
+Qed.
+
+Corollary replace_obj_spec s old a count nid :
+  old <> [] -> WF s -> WF a -> coherent (tbl s ++ tbl a) ->
+  exists s',
+    replace s old (RObj a) count nid = OK (s', nid)
+    /\ base s' = py_replace (base s) old (base a) count
+    /\ styles s' = replace_styles (base s) (styles s) old (RObj a) count
+    /\ WF s' /\ coherent (tbl s' ++ tbl a).
+Proof.
+  intros Ho W Wa C. destruct (replace_spec s old (RObj a) count nid Ho Wa (conj W C))
+    as (s' & nid' & E & B & S' & W' & C').
+  assert (nid' = nid).
+  { clear -E. unfold replace in E. revert E. generalize (find_from (base s) old 0) as idx.
+    generalize (length (base s) + 2) as fuel. intros fuel. revert s count.
+    induction fuel as [|f IH]; intros s count idx E; [discriminate|]. rewrite replace_loop_S in E.
+    destruct idx as [i|]; [|now inversion E]. destruct (count =? 0)%Z; [now inversion E|].
+    cbn [repl_value] in E. destruct (add _ a) as [lft|]; cbn [bind] in E; [|discriminate].
+    destruct (add lft _) as [obj'|]; cbn [bind] in E; [|discriminate]. eapply IH; eauto. }
+  subst nid'. exists s'. auto 10.
+Qed.
